@@ -154,3 +154,118 @@ def race_run(cases):
     p = vlib.sh([exe, "c18", "7"], input=gens.case_lines(cases).encode(), timeout=1800)
     err = p.stderr.decode(errors="replace")
     return {"attempted": True, "built": True, "races": "DATA RACE" in err, "report": err[-2000:] if "DATA RACE" in err else "", "exit": p.returncode}
+
+
+def c03(res, st, std_coq, lexer_correspondence):
+    std_coq(res, "C03", st, ("theories/GenChecks.v", "theories/Properties/C03_lexer.v"))
+    cp = vlib.coq_property("C03_lexer")
+    res.theorems += cp["theorems"]
+    for t in cp["theorems"]:
+        res.obligation("theorem " + t, cp["ok"], cp["log"][-500:])
+    if not (st["go"] and st["driver"]):
+        return
+    rnd = random.Random(res.seed)
+    gen_check(res, ("escape_ok",))
+    q = res.tier == "quick"
+
+    def fail(h, why):
+        res.violation("lexer: " + why, {"kind": "lex-c03", "input_hex": h, "why": why})
+    # lexer model (both modes) vs Lexer: outcome class and error range, exhaustive short strings + samples
+    lexer_correspondence(res, "p", "c03", "-", "C03 lexer, panic mode (outcome, error range)", fail, exh_len=4 if q else 5)
+    lexer_correspondence(res, "np", "c03", "-", "C03 lexer, recovery mode (never fails)", fail, exh_len=4 if q else 5)
+    # the property on the implementation: arbitrary byte strings, malformed first token, malformed token after ';', truncated escapes
+    cases = gens.parser_cases(rnd, 2500 if q else 50000, 1500 if q else 30000, 200 if q else 4000)
+    bad_tokens = [b"1a", b"'abc", b'"\\x', b"`", b"``", b"\x00", b"/*", b"0x", b"'\\u12", b"'" * 3 + b"a", b"b'\\xA", b"\xff", b"@", b"'\\400'", b"r'", b"$",
+                  b'"\\x4', b"'\\U0001F60", b"`\\x"]
+    entries = ["ParseStatement", "ParseStatements", "ParseQuery", "ParseExpr", "ParseType", "ParseDDL", "ParseDDLs", "ParseDML", "ParseDMLs"]
+    for bt in bad_tokens:
+        for e in entries:
+            cases.append((e, bt))
+            cases.append((e, b"SELECT 1; " + bt))
+            cases.append((e, b"SELECT 1;" + bt + b"; SELECT 2"))
+            cases.append((e, b"SELECT " + bt))
+            cases.append((e, b"(" + bt))
+            cases.append((e, b"SELECT 1 + " + bt))
+    for _ in range(3000 if q else 60000):
+        cases.append((rnd.choice(entries), gens.random_bytes(rnd, rnd.randrange(0, 16))))
+    for _ in range(1500 if q else 30000):
+        cases.append((rnd.choice(entries), gens.random_bytes(rnd, rnd.randrange(0, 30), gens.LEX_ALPHABET + [b"(", b")", b",", b"SELECT ", b"FROM ", b"[", b"]", b"{", b"}", b"CASE ", b"END "])))
+    deep = [b"(" * 200 + b"1" + b")" * 200, b"- " * 300 + b"1", b"NOT " * 300 + b"a", b"[" * 100, b"CASE WHEN " * 60, b"ARRAY<" * 80 + b"INT64" + b">" * 80,
+            b"SELECT " + b"(SELECT " * 50 + b"1" + b")" * 50, b"a" + b".b" * 500, b"1" + b" + 1" * 1000]
+    for dd in deep:
+        for e in ("ParseExpr", "ParseStatement", "ParseType", "ParseQuery"):
+            cases.append((e, dd))
+    cases += [(e, s) for s in gens.regression("C03") for e in ("ParseStatement", "ParseStatements", "ParseExpr")]
+    report_oracle(res, "C03", cases, "an entry point panics, does not terminate or reports an untyped error")
+    res.add_cases(len(cases), len(set(cases)), [gens.case_lines(cases[:1]).strip()[:200], gens.case_lines(cases[-1:]).strip()[:200]])
+    res.cov["rule"] = ("theorems: lexer/splitter totality for all byte strings (model), escape analysis over every path of the regenerated skeleton; "
+                       "correspondence: lexer outcome class and error range in both modes on all strings of <= 4/5 symbols over the 24-symbol alphabet + "
+                       "samples; implementation: every entry point (with a 3 s watchdog) on corpus mutations, token soups, lists, every malformed "
+                       "token kind as first token / after ';' / inside a statement, random bytes, random lexical-alphabet strings, deeply nested "
+                       "inputs; distinct = distinct (entry, input)")
+    res.assumptions += ["termination of parser productions and Go runtime panics inside productions (nil dereference, index) are not covered by the "
+                        "skeleton (data is abstracted): they are sampled by the watchdog oracle",
+                        "panics of non-*Error values (the BUG panics, handleError's re-panic) are outside the escape theorem and listed as residual",
+                        "method calls are resolved by name to every method of that name; function values are attributed to the site where they are passed",
+                        "stack exhaustion on extreme nesting and wall-clock bounds are not modelled"]
+
+
+def skeleton_discipline(res):
+    """diagnostics for the C09 obligation: which summary entries of Gen/SkeletonData.v are false"""
+    import re
+    src = open(os.path.join(vlib.COQ, "theories", "Gen", "SkeletonData.v")).read()
+    bad = []
+    for name in ("errors_writes", "bad_sites", "entry_shapes"):
+        m = re.search(r"Definition %s : list \(string \* bool\) := \[(.*?)\]\." % name, src, re.S)
+        body = m.group(1) if m else ""
+        items = re.findall(r'\("([^"]+)", (true|false)\)', body)
+        res.extra["skeleton_" + name] = len(items)
+        bad += ["%s:%s" % (name, f) for f, v in items if v == "false"]
+        if name != "errors_writes" and not items:
+            bad.append(name + ":<empty>")
+    res.obligation("error-list discipline of the regenerated summary (errors only appended; handleError before every BadNode; entry epilogues)",
+                   not bad, ", ".join(bad))
+    return bad
+
+
+def c09(res, st, std_coq):
+    std_coq(res, "C09", st, ("theories/GenChecks.v",))
+    if not (st["go"] and st["driver"]):
+        return
+    rnd = random.Random(res.seed)
+    gen_check(res, ("escape_ok",))
+    skeleton_discipline(res)
+    q = res.tier == "quick"
+    cases = gens.parser_cases(rnd, 4000 if q else 80000, 1500 if q else 30000, 400 if q else 8000)
+    cases += gens.sentence_cases(rnd, 1500 if q else 30000)
+    g = gens.G(rnd, gens.gen_keywords())
+    entries = ["ParseStatement", "ParseStatements", "ParseQuery", "ParseExpr", "ParseDDL", "ParseDML"]
+    # structured error inputs: valid sentences with one token deleted / duplicated / replaced, nested constructs cut short
+    for _ in range(3000 if q else 60000):
+        e, s = rnd.choice([("ParseExpr", g.expr().encode()), ("ParseQuery", g.query().encode()), ("ParseStatement", g.ddl().encode()),
+                           ("ParseStatement", g.dml().encode())])
+        toks = s.split(b" ")
+        k = rnd.randrange(4)
+        i = rnd.randrange(len(toks))
+        if k == 0:
+            del toks[i]
+        elif k == 1:
+            toks.insert(i, rnd.choice([b"*", b")", b"(", b",", b"NEW Foo {a: 1, *", b"SELECT", b"}", b"]", b"FROM", b"1a"]))
+        elif k == 2:
+            toks = toks[:i]
+        else:
+            toks[i] = rnd.choice([b"(", b"[", b"CASE", b"WHEN", b";", b"STRUCT<", b"ARRAY<"])
+        cases.append((e, b" ".join(toks)))
+    for _ in range(1000 if q else 20000):
+        cases.append((rnd.choice(entries), gens.random_bytes(rnd, rnd.randrange(0, 20))))
+    cases += gens.systematic_cases(valid_only=False)
+    cases += [(e, s) for s in gens.regression("C09") for e in ("ParseStatement", "ParseExpr", "ParseDDL")]
+    report_oracle(res, "C09", cases, "error contract violated")
+    res.add_cases(len(cases), len(set(cases)), [gens.case_lines(cases[:1]).strip()[:200], gens.case_lines(cases[-1:]).strip()[:200]])
+    res.cov["rule"] = ("theorems on the trace model + syntactic obligations on the regenerated summary + escape theorem; implementation: corpus, "
+                       "mutations, soups, lists, generated sentences, sentences with one token deleted/inserted/replaced/truncated, random bytes; "
+                       "oracle = the property (nil error iff whole input consumed and no Bad node; MultiError with >= #BadNode elements; each element "
+                       "has a message and 0 <= Pos <= End <= len); distinct = distinct (entry, input)")
+    res.assumptions += ["the trace model abstracts the parser to its events on the error list; that only disciplined traces are possible rests on the "
+                        "syntactic obligations (every write to `errors` is a one-element append, handleError precedes BadNode construction)",
+                        "error positions of parser errors (errorfAtToken) are sampled; lexer error ranges are proved (C03_lexer_error_range)"]
